@@ -53,7 +53,13 @@ def cases(shard, rabin):
 
 
 def run_case(case, acc, rabin, pid):
-    first = synth.Synth(case)
+    # every other game is synthesized in an automaton with a history (an
+    # earlier solve under another ownership of the variables)
+    reuse = bool(int(stable_hash({k: v for k, v in case.items()
+                                  if k != 'inits'})[:4], 16) % 2) \
+        if 'reuse' not in case else bool(case['reuse'])
+    case = dict(case, reuse=reuse)
+    first = synth.Synth(case, reuse=reuse)
     if not first.ztab:
         acc.ev(n=len(case['inits']))
         acc.count('skipped_empty_region', len(case['inits']))
@@ -62,7 +68,7 @@ def run_case(case, acc, rabin, pid):
     for i, (q, ei, si) in enumerate(case['inits']):
         sub = dict(case)
         sub['inits'] = [[q, ei, si]]
-        sy = first if i == 0 else synth.Synth(case)
+        sy = first if i == 0 else synth.Synth(case, reuse=reuse)
         sy.set_init(q, ei, si)
         run_one(sub, sy, W, acc, rabin, pid)
 
